@@ -18,7 +18,11 @@ RULE = (
     "every depth: top level, sequence/set elements, nested sequences, "
     "quantity magnitudes, nested blocks) x 5 (parser, decoder) pairings x "
     "random subsets of {real_cls (recording class or decimal.Decimal), "
-    "quantity_cls, module_class, group_class, object_class}. distinct = "
+    "quantity_cls, module_class, group_class, object_class}, handed over "
+    "through every loader entry point (str, bytes, streams, path, file: URL; "
+    "with and without image data behind END); a third of the cases build the "
+    "plain and the customised parser around one grammar object, in either "
+    "order. distinct = "
     "(pairing, seed, subset); non-trivial = at least one substitute is on"
 )
 PAIRINGS = ("PVL", "ODL", "PDS3", "ISIS", "default",
@@ -86,8 +90,24 @@ def make_classes(pvl):
     return SubModule, SubGroup, SubObject
 
 
-def build_parser(pvl, pairing, subs, classes):
+class _Shared:
+    """Grammar objects handed to several parsers (a caller may well build one
+    grammar and configure several parsers with it)."""
+
+    def __init__(self, pvl):
+        self.G = pvl.grammar
+        self.cache = {}
+
+    def __getattr__(self, name):
+        if name not in self.cache:
+            self.cache[name] = getattr(self.G, name)()
+        return lambda: self.cache[name]
+
+
+def build_parser(pvl, pairing, subs, classes, shared=None):
     P, G, D = pvl.parser, pvl.grammar, pvl.decoder
+    if shared is not None:
+        G = shared
     SubModule, SubGroup, SubObject = classes
     dk = {}
     if "real" in subs:
@@ -102,12 +122,15 @@ def build_parser(pvl, pairing, subs, classes):
     if "object" in subs:
         pk["object_class"] = SubObject
     if pairing == "PVL":
-        return P.PVLParser(grammar=G.PVLGrammar(), decoder=D.PVLDecoder(**dk), **pk)
+        g = G.PVLGrammar()
+        return P.PVLParser(grammar=g, decoder=D.PVLDecoder(grammar=g, **dk), **pk)
     if pairing == "ODL":
-        return P.ODLParser(grammar=G.ODLGrammar(), decoder=D.ODLDecoder(**dk), **pk)
+        g = G.ODLGrammar()
+        return P.ODLParser(grammar=g, decoder=D.ODLDecoder(grammar=g, **dk), **pk)
     if pairing == "PDS3":
         dk.pop("real_cls", None)   # PDSLabelDecoder has no real_cls parameter
-        return P.ODLParser(grammar=G.PDSGrammar(), decoder=D.PDSLabelDecoder(**dk), **pk)
+        g = G.PDSGrammar()
+        return P.ODLParser(grammar=g, decoder=D.PDSLabelDecoder(grammar=g, **dk), **pk)
     if pairing == "ISIS":
         g = G.ISISGrammar()
         return P.OmniParser(grammar=g, decoder=D.OmniDecoder(grammar=g, **dk), **pk)
@@ -118,7 +141,43 @@ def build_parser(pvl, pairing, subs, classes):
     return None  # default: through pvl.loads keyword arguments
 
 
-def load_with(pvl, pairing, text, subs, classes):
+def via_route(pvl, route, text, kw):
+    """Hand *text* to the loaders through one of their entry points."""
+    import io
+    import os
+    import tempfile
+    if route == "loads(str)":
+        return pvl.loads(text, **kw)
+    data = text.encode("utf-8")
+    if route == "loads(bytes)":
+        return pvl.loads(data, **kw)
+    if route == "load(text stream)":
+        return pvl.load(io.StringIO(text), **kw)
+    if route == "load(binary stream)":
+        return pvl.load(io.BytesIO(data), **kw)
+    # attached-label product: image data behind the END statement
+    tail = b"\nEND\n\xff\xfe\x00\x81 = ( \xc3"
+    if route == "loads(bytes+data)":
+        return pvl.loads(data + tail, **kw)
+    if route == "load(binary stream+data)":
+        return pvl.load(io.BytesIO(data + tail), **kw)
+    fd, path = tempfile.mkstemp(prefix="pvl-c18-", dir="/dev/shm")
+    try:
+        with os.fdopen(fd, "wb") as f:
+            f.write(data + (tail if route.endswith("+data)") else b""))
+        if route.startswith("load(path"):
+            return pvl.load(path, **kw)
+        return pvl.loadu("file://" + path, **kw)
+    finally:
+        os.unlink(path)
+
+
+ROUTES = ("loads(str)", "loads(str)", "loads(bytes)", "load(text stream)",
+          "load(binary stream)", "loads(bytes+data)", "load(binary stream+data)",
+          "load(path)", "load(path+data)", "loadu(file:)", "loadu(file:+data)")
+
+
+def load_with(pvl, pairing, text, subs, classes, shared=None, route="loads(str)"):
     if pairing in ("default", "PVLGrammar+OmniDecoder"):
         D = pvl.decoder
         dk = {}
@@ -130,7 +189,9 @@ def load_with(pvl, pairing, text, subs, classes):
         if dk or pairing != "default":
             kw["decoder"] = D.OmniDecoder(**dk)
         if pairing != "default":
-            kw["grammar"] = pvl.grammar.PVLGrammar()
+            kw["grammar"] = (shared or pvl.grammar).PVLGrammar()
+        elif shared is not None:
+            kw["grammar"] = shared.OmniGrammar()
         SubModule, SubGroup, SubObject = classes
         if "module" in subs:
             kw["module_class"] = SubModule
@@ -138,8 +199,9 @@ def load_with(pvl, pairing, text, subs, classes):
             kw["group_class"] = SubGroup
         if "object" in subs:
             kw["object_class"] = SubObject
-        return pvl.loads(text, **kw)
-    return pvl.loads(text, parser=build_parser(pvl, pairing, subs, classes))
+        return via_route(pvl, route, text, kw)
+    return via_route(pvl, route, text,
+                     {"parser": build_parser(pvl, pairing, subs, classes, shared)})
 
 
 def walk(rec, pvl, node, subs, classes, pairing, problems, depth, where, seen):
@@ -246,15 +308,41 @@ def case(rec, pvl, pairing, key, classes):
            "substitutes": sorted(subs)}
     rec.case((pairing, key, tuple(sorted(subs))), bool(subs),
              sample=wit if rec.c["evaluations"] % 1301 == 0 else None)
+    # how the text reaches the loader, whether the plain and the customised
+    # parser are built around ONE grammar object, and which of the two runs
+    # first, vary from case to case
+    route = rng.choice(ROUTES)
+    shared = _Shared(pvl) if rng.random() < 0.35 else None
+    subs_first = shared is not None and rng.random() < 0.5
+    wit.update({"route": route, "one_grammar_object_for_both_parsers": shared is not None,
+                "customised_load_first": subs_first})
+    rec.count(f"route[{route}]")
+    if shared is not None:
+        rec.count("cases_sharing_one_grammar_object")
+    pre = None
+    if subs_first:
+        try:
+            with common.cpu_limit(60):
+                pre = ("ok", load_with(pvl, pairing, text, subs, classes, shared, route))
+        except common.CaseTimeout:
+            rec.inconc("CPU budget exceeded " + key)
+            return
+        except Exception as e:
+            pre = ("exc", e)
     try:
         with common.cpu_limit(60):
-            plain = load_with(pvl, pairing, text, {}, classes)
+            plain = load_with(pvl, pairing, text, {}, classes, shared)
     except Exception:
         rec.count("plain_load_failed_not_judged")
         return
     try:
-        with common.cpu_limit(60):
-            got = load_with(pvl, pairing, text, subs, classes)
+        if pre is not None:
+            if pre[0] == "exc":
+                raise pre[1]
+            got = pre[1]
+        else:
+            with common.cpu_limit(60):
+                got = load_with(pvl, pairing, text, subs, classes, shared, route)
     except common.CaseTimeout:
         rec.inconc("CPU budget exceeded " + key)
         return
@@ -262,10 +350,19 @@ def case(rec, pvl, pairing, key, classes):
         rec.violation(CHECK, pairing, "load-fails-only-with-substitutes",
                       {"exc": type(e).__name__,
                        "real": getattr(subs.get("real"), "__name__", None),
-                       "quantity": "quantity" in subs}, wit,
+                       "quantity": "quantity" in subs, "route": route}, wit,
                       f"{type(e).__name__}: {e}"[:300])
         return
     rec.count(f"loads_with_substitutes[{pairing}]")
+    # the plain load must not show any substitute (it may have run second,
+    # around the same grammar object)
+    p_problems = []
+    walk(common.Rec(), pvl, plain, {}, classes, pairing, p_problems, 0, "top",
+         {"reals": [], "decimals": []})
+    for kind, where in p_problems[:2]:
+        rec.violation(CHECK, pairing, kind.split(":")[0],
+                      {"where": where, "which": kind.split(":")[-1],
+                       "in_the_plain_load": True}, wit, f"{kind} at {where}")
     problems, seen = [], {"reals": [], "decimals": []}
     # numbers that compare equal (0, 0.0, Decimal(0)) collapse inside a Python
     # set, and which one survives depends on the classes: not judged
@@ -273,8 +370,9 @@ def case(rec, pvl, pairing, key, classes):
     back = walk(rec, pvl, got, subs, classes, pairing, problems, 0, "top", seen)
     for kind, where in problems[:3]:
         rec.violation(CHECK, pairing, kind.split(":")[0],
-                      {"where": where, "which": kind.split(":")[-1]}, wit,
-                      f"{kind} at {where}")
+                      {"where": where, "which": kind.split(":")[-1],
+                       "route": route if route != "loads(str)" else "loads(str)"},
+                      wit, f"{kind} at {where}")
     # text of each real handed over unaltered
     if subs.get("real") is RecReal and pairing != "PDS3":
         lits = [t.text for t in doc.tokens if t.kind == gt.VAL and
@@ -380,6 +478,8 @@ def shard(i, n, tier, seed, rec, hb):
 
 def finish_kwargs(rec, tier):
     req = [f"loads_with_substitutes[{p}]" for p in PAIRINGS]
+    req += [f"route[{r}]" for r in set(ROUTES)]
+    req += ["cases_sharing_one_grammar_object"]
     req += ["real_text_checks", "decimal_digit_checks", "seen[real][block]",
             "seen[real][sequence]", "seen[real][set]",
             "seen[real][quantity-magnitude]", "seen[quantity][sequence]",
